@@ -40,6 +40,10 @@ EDIT_CLASSES = [
     ("cmd_async", False, "CommandHashData", "is_async"),
     # attributes the tool does not read today: editing them changes nothing that is generated (if one of them ever starts
     # to matter it has to enter the key as well)
+    # a whole source file (with a command) appears / disappears; the element type of an array-typed parameter (rendered
+    # `unknown` whatever the element: a silent edit today)
+    ("extra_file", False, "CommandHashData", "name"),
+    ("array_param_elem", False, "ParameterHashData", "array_element"),
     ("channel_serde_rename", False, "ChannelHashData", "serde_rename"),
     ("field_serde_default", False, "FieldHashData", "serde_default"),
     ("cmd_order", False, "CommandHashData", "name"),
@@ -111,7 +115,15 @@ def render_sources(st):
     cmds = "use tauri::{AppHandle, Emitter};\nuse tauri::ipc::Channel;\n\n" + (main_cmd + second if g("cmd_order") % 2 == 0 else second + main_cmd)
     if st.get("_nocommands", False):
         cmds = "pub fn helper() {}\n"
-    return {"src/models.rs": src, "src/commands.rs": cmds, "src/lib.rs": "mod models;\nmod commands;\n"}
+    files = {"src/models.rs": src, "src/commands.rs": cmds, "src/lib.rs": "mod models;\nmod commands;\n"}
+    files["src/keys.rs"] = "#[tauri::command]\npub fn import_key(key: %s, label: String) -> bool {\n    true\n}\n" % alt(
+        g("array_param_elem"), ["[u8; 4]", "[String; 4]", "[bool; 2]"])
+    if g("extra_file") % 2 == 1:
+        files["src/bin/helper.rs"] = "#[tauri::command]\npub fn ping(target: String) -> String {\n    target\n}\n"
+    if st.get("_nocommands", False):
+        files.pop("src/keys.rs")
+        files.pop("src/bin/helper.rs", None)
+    return files
 
 
 def render_config(st):
@@ -147,6 +159,12 @@ class Sandbox:
     def sync(self):
         shutil.rmtree(os.path.join(self.root, "src-tauri"), ignore_errors=True)
         proc.write_files(os.path.join(self.root, "src-tauri"), render_sources(self.state))
+        # every source file and directory carries one fixed, old modification time: an edit is visible in the *content* only
+        # (checkouts, archive extraction and `touch -r` produce exactly that), so nothing may decide by time stamps
+        for base, dirs, names in os.walk(os.path.join(self.root, "src-tauri")):
+            for n in names + dirs:
+                os.utime(os.path.join(base, n), (1577836800, 1577836800))
+        os.utime(os.path.join(self.root, "src-tauri"), (1577836800, 1577836800))
         tauri_cfg, file_cfg = render_config(self.state)
         with open(os.path.join(self.root, "typegen.json"), "w") as fh:
             json.dump(file_cfg, fh)
